@@ -3,7 +3,7 @@
 # from a seeded change is ever committed), then commit the given paths (default: everything).
 cd "$(dirname "$0")/.."
 if [ -n "$(git -C /repo status --porcelain --untracked-files=no)" ]; then echo "refusing: /repo has local modifications"; exit 2; fi
-for t in unary binary engines reserve storagecfg globals alias; do python3 translate/$t.py > /dev/null 2>&1 || echo "translator $t failed"; done
+for t in unary binary engines reserve storagecfg globals alias vectrait; do python3 translate/$t.py > /dev/null 2>&1 || echo "translator $t failed"; done
 msg=$1; shift
 if [ $# -eq 0 ]; then git add -A; else git add "$@" lean/AdeptModel/Generated; fi
 git commit -qm "$msg" && git log --oneline | head -1
